@@ -48,6 +48,9 @@ def replay(arg):
             return 777
         return amap.get(mz, {}).get(ma, 700 + ma)      # an isotope number of the other element: not an isotope here
 
+    # the private table's real name: any hashable will do as a name, also a falsy one
+    realname = {PUB: PUB, "T1": rng.choice(["T1", "", 0, "my table", "T1"])}
+    binding["table_name"] = repr(realname["T1"])
     tables = {PUB: periodictable.elements}         # the tables the caller still holds (model variable `held`)
     elems = {PUB: dict((mz, periodictable.elements[zmap[mz]]) for mz in (1, 8))}   # kept element objects per table
     seen = {}        # model key (tab, z, a, q) -> real object
@@ -132,8 +135,14 @@ def replay(arg):
         res = None
         try:
             if op == "NewTable":
-                tables[T] = core.PeriodicTable(T)
+                tables[T] = core.PeriodicTable(realname[T])
                 elems[T] = dict((m, tables[T][zmap[m]]) for m in (1, 8))
+                got = "ok"
+            elif op == "ReloadData":
+                from periodictable import density, xsf, covalent_radius, crystal_structure, magnetic_ff
+                route, mod = rng.choice([("density", density), ("xsf", xsf), ("covalent_radius", covalent_radius),
+                                         ("crystal_structure", crystal_structure), ("magnetic_ff", magnetic_ff)])
+                mod.init(tables[T], reload=True)
                 got = "ok"
             elif op == "DropTable":
                 del tables[T]           # the caller keeps atoms only; the registry must keep the table alive
